@@ -869,11 +869,46 @@ pub fn run(report: &mut Report, tier: &str) {
     for (cfg, b) in dgram_cfgs(tier) {
         sched::run_into(&DgramSc(cfg), &b, report);
     }
+    vkit::loomrun::run_into(&loom_scenarios(tier), report);
     report.set("exhaustive", json!(true));
     report.set("rule", json!("every execution of each scenario that deviates from the default (FIFO task order, declaration-order select, all frames delivered) in at most d choices, each executed once on the real stack under a paused clock; states = executions, transitions = choice points answered"));
 }
 
+/// Two polls running at the same time on two workers: the hand-over of a connection's
+/// stored messages in `accept()` against deliveries by the connection's task, and
+/// sockets of one machine picking ephemeral ports together.
+fn loom_scenarios(tier: &str) -> Vec<vkit::loomrun::LoomScenario> {
+    let thorough = tier == "thorough";
+    let (maxb, maxd, bound, wall) = if thorough { (3, 3, 0, 900) } else { (2, 2, 3, 120) };
+    let mut v = vec![];
+    for before in 0..=maxb {
+        for during in 1..=maxd {
+            for ann in ["announce", "none"] {
+                if ann == "none" && before == 0 {
+                    continue; // nothing would have queued the connection
+                }
+                v.push(format!("accept:{before}:{during}:{ann}"));
+            }
+        }
+    }
+    v.push("ephemeral:2".into());
+    v.push("ephemeral:3".into());
+    if thorough {
+        v.push("ephemeral:4".into());
+    }
+    v.into_iter()
+        .map(|name| vkit::loomrun::LoomScenario {
+            name,
+            preemptions: bound,
+            wall: std::time::Duration::from_secs(wall),
+        })
+        .collect()
+}
+
 pub fn replay(w: &serde_json::Value, tier: &str) -> String {
+    if let Some(s) = vkit::loomrun::replay(w) {
+        return s;
+    }
     let name = w["scenario"].as_str().unwrap_or("");
     let ch: Vec<u16> = w["choices"]
         .as_array()
